@@ -12,7 +12,7 @@ def run(rep, tier, seed, replay):
                 "contains a branch")
     exprs = lib.inputs(rep, "C06", tier, seed, 3000, 40000, replay, max_depth=4)
     if replay is None:
-        atoms = ["a", "/", "*", "**", "{a,b}", "{a/,b}", "{/a,b}", "{*,a}", "{a,**/b}", "<a:1,>", "<a/:1,>", "</a:1,>", "<a/:0,1>", "</a:0,1>", "<*a:2>", "{{/a,b}c,d}", "<{/a,b}c/:2>", "x"]
+        atoms = ["a", "/", "*", "**", "{a,b}", "{a/,b}", "{/a,b}", "{*,a}", "{a,**/b}", "<a:1,>", "<a/:1,>", "</a:1,>", "<a/:0,1>", "</a:0,1>", "<*a:2>", "{{/a,b}c,d}", "<{/a,b}c/:2>", "x", "</a/:1>", "</a/:0,1>", "<a/**:1>"]
         k = 2 if tier == "quick" else 3
         exprs += [e for e in gen.small_scope(k, atoms) if e not in set(exprs)]
     P = lib.Pair(exprs)
@@ -68,13 +68,16 @@ def run(rep, tier, seed, replay):
         inp = {"expr": e}
         # the only listed deviation: self-adjacency of a repetition through a branch terminal
         f = m.ask(["F06 " + hexs(e)])[0]
-        tag = f[4:] if f.startswith("out:") else "UNATTRIBUTED"
+        tags = f[4:].split(",") if f.startswith("out:") else []
+        want = "K-RULE-REP-NESTED" if iv == "accept" else "K-RULE-ONCE-REP"
         if mc[k] != iv:
             rep.violation("oracle", "Glob::new %ss an expression that the documented rules %s, and the checker model does not reproduce it" % (iv, s), inp, impl=iv, spec=s, model=mc[k])
-        elif tag in finding_ids and iv == "accept":
-            rep.known_hits[tag] += 1
+        elif f == "in":
+            rep.violation("oracle", "build_eq_wfSpec_partial applies (repsSafe and onceOpen) but Glob::new %ss an expression that the documented rules %s" % (iv, s), inp, impl=iv, spec=s)
+        elif want in tags and want in finding_ids:
+            rep.known_hits[want] += 1
         else:
-            rep.violation("oracle", "Glob::new %ss an expression that the documented rules %s" % (iv, s), inp, impl=iv, spec=s)
+            rep.violation("oracle", "Glob::new %ss an expression that the documented rules %s (fragment %s)" % (iv, s, f), inp, impl=iv, spec=s)
 
     def ask(wit):
         b = lib.parse_impl_build(h.ask(["B " + hexs(wit["expr"])])[0])
